@@ -3,4 +3,5 @@
 for id in "$@"; do
   P=${id%%-*}
   /verif/tools/try_patch.sh /verif/seeded/$id/patch.diff $P > /tmp/seedrun_$id.log 2>&1
+  grep -E "VIOLATION|UNDECIDED|BOUNDED|KNOWN|tier=|exit=" /tmp/seedrun_$id.log | cut -c1-600 > /verif/seeded/$id/last_check.txt
 done
